@@ -9,14 +9,64 @@ Tie: statuses, written columns, save queue, pending link pairs, `cache.modified`
 transaction view and the committed database of the real session against the model after every call; the Lean reference
 machine against the Python shadow.
 """
-import json
+import json, sqlite3, os
+from pony.orm import Database, Required, Optional, Set, PrimaryKey, db_session, commit, rollback, flush
+from pony.orm import core
+import ponyutil
 from engines import sess_shared as S
+from engines.c10 import R_SET_AFTER_REMOVE
 
-# directed histories replayed on every run (regressions of what this check found or could find)
-DIRECTED = []
+# regression inputs: defects repaired in /repo that this property is about
+REGRESSIONS = [('set-after-unflushed-remove (commit fc04eec)', R_SET_AFTER_REMOVE)]
+
+
+def regressions(ctx):
+    for name, hist in REGRESSIONS:
+        r = S.Run(hist['schema'], ops=hist['ops'], ctx=None, reads=False)     # no reads: they would flush between the calls
+        try:
+            r.run()
+            ctx.case({'regression': name}, kind='regression')
+            for f in r.findings:
+                if f['prop'] == 'C09': ctx.violation(f['what'], hist, observed=f['observed'], expected=f['expected'], key=f['key'])
+        finally: r.close()
+
+
+def witness_full_false(ctx):
+    """Props/C09.lean `C09_full_false` on the real code: the guard `ValidFrom` (the program does not construct an object under a
+    primary key it still holds) is needed.  Not a violation: the program is ill-formed; recorded so that a change is noticed."""
+    d = ponyutil.workdir('c09w'); path = os.path.join(d, 'db.sqlite')
+    db = Database()
+    class E(db.Entity):
+        id = PrimaryKey(int)
+        v = Optional(int)
+    db.bind('sqlite', path, create_db=True)
+    db.generate_mapping(create_tables=True)
+    try:
+        with db_session: E(id=1, v=5)
+        with db_session:
+            e2 = E(id=1, v=6)           # accepted: the first object is not in the cache
+            e2.delete()                 # cancelled: no statement at all
+        con = sqlite3.connect(path); rows = con.execute('SELECT id, v FROM "E"').fetchall(); con.close()
+        silent = rows == [(1, 5)]
+        loud = None
+        try:
+            with db_session: E(id=1, v=7)
+        except Exception as e: loud = type(e).__name__
+        con = sqlite3.connect(path); rows2 = con.execute('SELECT id, v FROM "E"').fetchall(); con.close()
+        ctx.case({'witness': 'C09_full_false', 'rows': rows, 'without-delete': loud, 'rows-after': rows2}, kind='witness')
+        ctx.count('witness-reproduced:C09_full_false' if silent else 'witness-not-reproduced:C09_full_false')
+        if loud != 'TransactionIntegrityError' or rows2 != [(1, 5)]:
+            ctx.violation('a second object under a committed primary key was stored or lost silently', {'calls': ['E(id=1, v=5)', 'commit', 'E(id=1, v=7)', 'commit']},
+                          observed={'exception': loud, 'rows': rows2}, expected={'exception': 'TransactionIntegrityError', 'rows': [(1, 5)]}, key='duplicate-primary-key-flushed-silently')
+        ctx.extra['C09_full_false_on_real_code'] = {'create-under-committed-key-then-delete': {'database': rows, 'as-in-the-model': silent},
+                                                    'create-under-committed-key-then-commit': {'exception': loud, 'database': rows2}}
+    finally:
+        db.disconnect(); ponyutil.rmtree(d)
 
 
 def run(ctx):
+    regressions(ctx)
+    witness_full_false(ctx)
     S.explore(ctx, 'C09', ctx.scale(260, 6000), ctx.scale(22, 30))
 
 
